@@ -1607,6 +1607,7 @@ func runSketch(seed uint64) (violation string, st map[string]int64) {
 	ref := map[int]int{}
 	steps := 200 + r.Intn(6000)
 	hot := r.Intn(keys)
+	sinceRebuild, firstAging := 0, true // recordings since the table was (re)built; explicit aging steps end the count too
 	for i := 0; i < steps; i++ {
 		if r.Chance(1, 400) {
 			// grow (a smaller request must change nothing)
@@ -1619,6 +1620,10 @@ func runSketch(seed uint64) (violation string, st map[string]int64) {
 					return fmt.Sprintf("ensureCapacity(%d) shrank the table from %d to %d", nc, before, s.TableLen()), st
 				}
 				ref = map[int]int{} // a new table starts a new period
+				sinceRebuild, firstAging = 0, true
+				if s.Size() != 0 {
+					return fmt.Sprintf("ensureCapacity(%d) rebuilt the table (%d -> %d words) but kept %d recordings of the old table in the period counter: the first aging step will halve estimates after %d instead of %d recordings", nc, before, s.TableLen(), s.Size(), s.SampleSize()-s.Size(), s.SampleSize()), st
+				}
 			}
 		}
 		if r.Chance(1, 700) {
@@ -1628,6 +1633,7 @@ func runSketch(seed uint64) (violation string, st map[string]int64) {
 				before[k] = s.Frequency(k)
 			}
 			s.Reset()
+			firstAging = false
 			st["explicit_resets"]++
 			for k := 0; k < keys; k++ {
 				if f := s.Frequency(k); f != before[k]/2 {
@@ -1643,10 +1649,15 @@ func runSketch(seed uint64) (violation string, st map[string]int64) {
 		sizeBefore := s.Size()
 		s.Increment(k)
 		st["increments"]++
+		sinceRebuild++
 		if s.Size() < sizeBefore {
 			// the sampling period ended: the sketch aged itself
 			st["period_resets"]++
 			ref = map[int]int{}
+			if firstAging && uint64(sinceRebuild) < s.SampleSize() {
+				return fmt.Sprintf("the first aging step after the table was built came after %d recordings, the sampling period is %d", sinceRebuild, s.SampleSize()), st
+			}
+			firstAging = false
 		} else {
 			ref[k]++
 		}
